@@ -351,6 +351,8 @@ pub open spec fn step_close(s: Raw, t: Raw, b: &BlockInfo, id: u64) -> bool {
     r is Ok ==> r->Ok_0.messages@ == submsgs_of(prop(old(deps.storage).view(), proposal_id)->Some_0.msgs@)
 @ensures C05.execute_inv C03 C06
     r is Ok ==> inv(final(deps.storage).view())
+@ensures C05.execute_goes_through_on_passed_proposals C03
+    prop(old(deps.storage).view(), proposal_id) is Some && spec_status(prop(old(deps.storage).view(), proposal_id)->Some_0, &env.block) == Status::Passed ==> r is Ok
 @prefix
     broadcast use cw3_axioms;
     proof {
@@ -370,6 +372,12 @@ pub open spec fn step_close(s: Raw, t: Raw, b: &BlockInfo, id: u64) -> bool {
     r is Ok ==> r->Ok_0.messages@.len() == 0
 @ensures C05.close_inv C03 C06
     r is Ok ==> inv(final(deps.storage).view())
+@ensures C05.close_goes_through_on_failed_proposals C03
+    prop(old(deps.storage).view(), proposal_id) is Some && ({
+        let p = prop(old(deps.storage).view(), proposal_id)->Some_0;
+        p.status != Status::Executed && p.status != Status::Rejected && p.status != Status::Passed
+        && spec_status(p, &env.block) != Status::Passed && p.expires.expired(&env.block)
+    }) ==> r is Ok
 @prefix
     broadcast use cw3_axioms;
     proof {
